@@ -36,7 +36,8 @@ type nodePool struct {
 	capacity int   // capacity of nodePool
 	length   int   // length of nodePool
 
-	pool byte_pool.IBytePool // reference to []byte pool
+	isFixedKeylen bool                // fixed element size or not
+	pool          byte_pool.IBytePool // reference to []byte pool
 }
 
 /*
@@ -63,6 +64,7 @@ func newNodePool(elemNum, elemSize int, isFixedKeylen bool) *nodePool {
 	np.capacity = elemNum
 	np.length = 0
 
+	np.isFixedKeylen = isFixedKeylen
 	if isFixedKeylen {
 		np.pool = byte_pool.NewFixedBytePool(elemNum, elemSize)
 	} else {
@@ -91,11 +93,15 @@ func (np *nodePool) add(head int32, key []byte) (int32, error) {
 		return -1, err
 	}
 
-	np.array[node].next = head
-	//set the node with key
-	np.pool.Set(node, key)
-
 	np.length += 1
+
+	//set the node with key
+	if err = np.pool.Set(node, key); err != nil {
+		np.recyleNode(node) //recyle the node
+		return -1, err
+	}
+
+	np.array[node].next = head
 	return node, nil
 }
 
@@ -197,6 +203,13 @@ func (np *nodePool) elemSize() int {
 
 /* check whtether the key is legal for the set */
 func (np *nodePool) validateKey(key []byte) error {
+	if np.isFixedKeylen {
+		if len(key) == np.elemSize() {
+			return nil
+		}
+		return fmt.Errorf("element len[%d] != bucketSize[%d]", len(key), np.elemSize())
+	}
+
 	if len(key) <= np.elemSize() {
 		return nil
 	}
